@@ -331,7 +331,7 @@ def check_c16(args):
     runs, labels = [], []
     for i, c in enumerate(cases):
         for eng in ("mem", "disk"):
-            steps = [{"sql": s} for s in G.setup_sql(c["db"], G.TABLES)]
+            steps = [{"sql": s} for s in S.case_setup(c, eng, split_inserts=False)]
             steps.append({"sql": c["sql"], "stypes": True})
             runs.append({"id": f"{i}.{eng}", "engine": eng, "steps": steps})
     outs = run_sharded("sql", runs, tag="c16", timeout=3000, case_timeout=30)
